@@ -170,6 +170,18 @@ def reshape_failures(d, st=None):
             fails.append(("C07/reshape/identity", f"{shape}: reshape to the current shape changed the array"))
     except Exception as e:
         fails.append((f"C07/reshape/identity-raised-{type(e).__name__}", f"{shape}: {e}"))
+    # the current shape spelled with a -1 wildcard must also be the identity
+    for pos in range(len(shape) if 0 not in shape else 0):  # a wildcard is ambiguous for empty arrays (numpy refuses too)
+        wild = shape[:pos] + (-1,) + shape[pos + 1 :]
+        for name, fn in (("reshape", lambda: x.reshape(wild)), ("autoray.reshape", lambda: ar.do("reshape", x, wild))):
+            try:
+                y = fn()
+                if st is not None:
+                    st.transitions += 1
+                if tuple(index_key(i) for i in y.indices) != keys or not exact_equal(embed(y), X) or y.charge != x.charge:
+                    fails.append((f"C07/{name}/identity-wildcard", f"{shape}: reshape({wild}) changed the array"))
+            except Exception as e:
+                fails.append((f"C07/{name}/identity-wildcard-raised-{type(e).__name__}", f"{shape} as {wild}: {e}"))
     for target in targets_of(shape):
         if target == shape:
             continue
